@@ -590,8 +590,8 @@ def wl_render(ctx, idx, rng):
 def workloads(ctx):
     q = ctx.tier == "quick"
     base = len(DECADES) * len(TIES) * 8
-    return [("order", base * (3 if q else 60), wl_order), ("strings", 1500 if q else 60000, wl_strings),
-            ("render", 1200 if q else 40000, wl_render)]
+    return [("order", base * (12 if q else 60), wl_order), ("strings", 7500 if q else 60000, wl_strings),
+            ("render", 6000 if q else 40000, wl_render)]
 
 
 def setup(ctx):
